@@ -185,6 +185,20 @@ theorem recorded_io_chain {α : Type} (S : Sem α) (steps : List Pipe) (coor : L
   simp only [runI, List.head?_cons, List.tail_cons, true_and]
   exact steps_chain S steps coor 0 x
 
+/-- the members of a FeatureUnion all record the input of the union; the transformers of a ColumnTransformer
+record the columns selected for them -/
+theorem recorded_members_input {α : Type} (S : Sem α) (coor : List Nat) (x : α) :
+    (∀ items, ∀ r ∈ stepRecords coor (runI S (.union items) coor x).2.tail, r.inp = x) ∧
+    (∀ items rem, ∀ r ∈ stepRecords coor (runI S (.columns items rem) coor x).2.tail,
+      ∃ pc ∈ items, r.inp = S.select pc.2 x) := by
+  constructor
+  · intro items r hr
+    simp only [runI, List.tail_cons] at hr
+    exact union_members_input S items coor 0 x r hr
+  · intro items rem r hr
+    simp only [runI, List.tail_cons] at hr
+    exact columns_members_input S items coor 0 x r hr
+
 /-- every record carries the coordinate of a model at or below the instrumented one -/
 theorem recorded_coordinates_below {α : Type} (S : Sem α) (p : Pipe) (coor : List Nat) (x : α) :
     ∀ r ∈ (runI S p coor x).2, coor.length ≤ r.coord.length := runI_len S p coor x
